@@ -76,4 +76,48 @@ seq(prop="C07", lean_targets=["TransportVerif.Props.C07"],
     nontrivial=["full-count", "full-size", "full-cap", "full-by-one", "fits-size-exactly", "fits-count-exactly", "fits-cap-exactly"],
     rule="as C06; non-trivial = a write is refused by a limit, or accepted with no room to spare; distinct = hash of the ops text",
     **_RING_COMMON)
+
+seq(prop="C16", lean_targets=["TransportVerif.Props.C16"], pkg="vnet", run="^TestVerifLoss$", component="loss",
+    files=["loss_test.go"], quick_n=3000, thorough_n=100000,
+    nontrivial=["draw-at-threshold", "endpoint", "stat"],
+    rule="random chances in -5..105 plus end points and far out-of-range values; streams of 5..64 datagrams with random payloads; the draws of the "
+         "global math/rand source are predicted by reseeding, so forward/drop is compared with the model per datagram; 10% of the cases add a "
+         "20000-datagram unscripted stream whose dropped fraction must be within 6 sigma. non-trivial = a draw adjacent to the threshold, an end-point "
+         "chance, or a statistical stream; distinct = hash of the ops text",
+    design_ref="DESIGN.md 7.16",
+    technique="Lean 4 proof of the decision logic (threshold on a draw): end points, ordered-sublist, counting lemma; differential correspondence with predicted math/rand draws",
+    level_text="Theorems chance_le_0_forwards_all, chance_ge_100_forwards_none, forwarded_is_ordered_sublist, dropped_draws (Props/C16.lean) for every chance (any integer) and every stream. The model (one draw per datagram, drop iff draw < chance) is tied to loss_filter.go by predicting the draws of the global math/rand source (reseeding) and comparing forward/drop and the forwarded chunk (identity, payload, addresses) per datagram.",
+    level_note="Trusted: Lean kernel + standard axioms; uniformity and independence of math/rand draws (the probabilistic clause rests on it; a 6-sigma frequency test is run as a sanity check only); the harness' prediction of draws by reseeding the global source.",
+    trusted=LEAN_TB + ["Model/Loss.lean validated per datagram against LossFilter.onInboundChunk with predicted draws", "uniformity of math/rand"],
+    assumptions=["math/rand.Intn(100) is uniform on 0..99", "one filter at a time uses the global math/rand source during the check"])
+
+def _xor_old_overlay(work):
+    """compile xor_old.go instead of xor_generic.go: the working-tree file with its build constraint
+    lines removed replaces it, xor_generic.go is mapped away (the constraint `(!go1.20 && !arm) || gccgo`
+    cannot be satisfied by the gc toolchain in this sandbox without breaking the runtime)"""
+    import os
+    from . import core
+    src = open(os.path.join(core.REPO, "utils/xor/xor_old.go")).read().split("\n")
+    out = [l for l in src if not l.startswith("//go:build") and not l.startswith("// +build")]
+    p = work.path("xor_old_unconstrained.go")
+    open(p, "w").write("\n".join(out))
+    return {"utils/xor/xor_old.go": p, "utils/xor/xor_generic.go": ""}
+
+
+seq(prop="C20", lean_targets=["TransportVerif.Props.C20"], pkg="utils/xor", inpkg="xor", run="^TestVerifXor$", component="xor",
+    quick_n=6000, thorough_n=200000,
+    variants=[dict(files=["xor_h_test.go", "variant_generic_test.go"]),
+              dict(files=["xor_h_test.go", "variant_old_test.go"], overlay_fn=_xor_old_overlay)],
+    nontrivial=["aliased", "unequal", "words+tail", "dst-short"],
+    rule="deterministic sweep of all lengths 0..40 x 0..40 of a and b x 3 aliasings, plus random cases (lengths to 96, thorough 600), all start "
+         "offsets 0..7 of each slice inside a guarded backing array, aliasing dst==a / dst==b, dst longer, equal or too short; run against both "
+         "implementations that build on amd64 (default: xor_generic.go; and xor_old.go compiled in its place by overlay). non-trivial = aliased, unequal lengths, a word "
+         "part and a tail, or a short dst; distinct = hash of the op",
+    design_ref="DESIGN.md 7.20",
+    technique="Lean 4 proof that the word-wise loop of xor_old.go meets the contract for all lengths/contents/exact aliasings; differential correspondence of contract and model with both Go builds",
+    level_text="Theorem xor_old_correct (Props/C20.lean): the model of fastXORBytes (8-byte word loop + tail loop over one memory with aliasing modes none / dst==a / dst==b) equals the contract for all inputs; contract_n / contract_prefix / contract_frame_dst / contract_frame_ab spell the contract out pointwise. For the default build (xor_generic.go) the function IS crypto/subtle.XORBytes, whose contract is taken as given and validated by the correspondence run only.",
+    level_note="Trusted: Lean kernel + standard axioms; crypto/subtle.XORBytes (stdlib assembly) as its documented contract; word XOR = bytewise XOR of the memory images; xor_arm.go/.s cannot be built or run on amd64 and is not covered; alignment (start offsets) is exercised by the harness only.",
+    trusted=LEAN_TB + ["Model/Xor.lean validated against both builds (generic, and xor_old.go via -tags gccgo) on every run", "crypto/subtle.XORBytes contract"],
+    assumptions=["exact aliasing only (dst is a or b or disjoint); partial overlap is outside the property", "xor_arm.go not covered (cannot run on amd64)"])
+
 ALL = SEQ
